@@ -28,7 +28,7 @@ PROPERTY Atomic
 
 # workload -> number of shards (quick, thorough)
 WORKLOADS = [("W1x64", 1, 1), ("W1a64", 1, 1), ("W2", 1, 1), ("W3", 2, 4), ("W4", 1, 1), ("W4dual", 1, 1), ("W5", 2, 3)]
-MASKS_THOROUGH = 143      # per workload: 7 x 143 = 1001 random multi-failure patterns
+MASKS_THOROUGH = 400      # per workload: 7 x 400 = 2800 random multi-failure patterns
 
 HARNESS_ENV = {"ASAN_OPTIONS": "detect_leaks=0:abort_on_error=0:exitcode=66:allocator_may_return_null=1",
                "UBSAN_OPTIONS": "print_stacktrace=1:halt_on_error=1:exitcode=66"}
